@@ -101,6 +101,7 @@ type w1Cfg struct {
 	MaxTimeLagMs    int  `json:"position_max_time_lag_ms,omitempty"`
 	ExpiredSubMs    int  `json:"expired_sub_close_delay_ms,omitempty"`
 	QueueInitialCap int  `json:"queue_initial_cap,omitempty"`
+	SingleFlight    bool `json:"use_single_flight,omitempty"` // Config.UseSingleFlight
 	Dict            bool `json:"dictionary_compression,omitempty"` // Config.DictionaryCompression with a recording engine; the transport carries it like websocketTransport
 	CSR             bool `json:"client_side_refresh,omitempty"` // ConnectReply.ClientSideRefresh + OnRefresh handler (token = seconds to prolong)
 	JoinLeaveFailPm int  `json:"broker_join_leave_fail_pm,omitempty"` // Broker.PublishJoin / PublishLeave errors
@@ -936,6 +937,7 @@ func (w *w1World) setup() error {
 	if cfg.Dict {
 		nc.DictionaryCompression = w1DictEngine{w: w}
 	}
+	nc.UseSingleFlight = cfg.SingleFlight
 	if cfg.MaxTimeLagMs > 0 {
 		nc.ClientChannelPositionMaxTimeLag = time.Duration(cfg.MaxTimeLagMs) * time.Millisecond
 	}
@@ -1454,6 +1456,13 @@ func (w *w1World) runAdmin(ops []w1Op) {
 			w.nodeOp("cunsub", user, op.Ch, op.C, func() error { cl.client.Unsubscribe(op.Ch); return nil })
 		case "cdisc":
 			w.nodeOp("cdisc", user, "", op.C, func() error { cl.client.Disconnect(DisconnectForceNoReconnect); return nil })
+		case "nhist":
+			// node-level history reads without limit, racing the clients' history requests
+			// (with UseSingleFlight concurrent identical reads are coalesced)
+			for k := 0; k < op.N; k++ {
+				w.s.Pause()
+				_, _ = w.node.History(op.Ch, WithLimit(NoLimit))
+			}
 		case "nrefresh":
 			exp := time.Now().Unix() + int64(op.N)
 			var rec *w1NodeOp
@@ -2055,6 +2064,12 @@ func w1Gen(c *simrt.Choice, prop, tier string) any {
 	cfg.QueueInitialCap = []int{0, 0, 1, 2}[c.Intn(4)]
 	if prop == "C11" {
 		cfg.Dict = c.Intn(3) > 0
+	}
+	if prop == "C43" && c.Intn(2) == 0 {
+		cfg.SingleFlight = true
+		for _, ch := range sc.Channels {
+			sc.Admins = append(sc.Admins, []w1Op{{K: "nhist", Ch: ch, N: 6 + c.Intn(10)}})
+		}
 	}
 	if prop == "C05" || prop == "C06" || prop == "C07" || prop == "C08" || prop == "C04" {
 		cfg.PresDelayPm = []int{0, 0, 100, 300}[c.Intn(4)]
